@@ -44,6 +44,15 @@ type parseUnit struct {
 	specMap map[string]*gr.ActSpec
 	// grammar traits
 	hasEmpty, recursive, hasErrAlt, allProductive bool
+	deepPats     []gen.DeepPattern
+	deepPatsDone bool
+}
+
+func (u *parseUnit) deepPatterns() []gen.DeepPattern {
+	if !u.deepPatsDone {
+		u.deepPats, u.deepPatsDone = gen.DeepPatterns(u.c, u.e), true
+	}
+	return u.deepPats
 }
 
 func parseUnits(r *runner, needLR bool) []*parseUnit {
@@ -300,9 +309,9 @@ func init() {
 			n := rapid.IntRange(2, 8).Draw(rt, "histLen")
 			for i := 0; i < n; i++ {
 				in := gen.DrawParseInput(rt, u.c, u.d, mx, 3, 40)
-				if rapid.IntRange(0, 7).Draw(rt, "deep") == 0 {
+				if rapid.IntRange(0, 4).Draw(rt, "deep") == 0 {
 					// a very long input: the stack grows beyond its initial capacity
-					in.Toks = gen.DeepInput(rt, u.c)
+					in.Toks = gen.DeepInputFrom(rt, u.c, u.deepPatterns())
 					if len(in.Toks) > 4 && rapid.Bool().Draw(rt, "deepCutShort") {
 						// cut short: the parse fails with a tall stack left behind
 						in.Toks = in.Toks[:len(in.Toks)-rapid.IntRange(1, len(in.Toks)/3).Draw(rt, "deepCut")]
